@@ -67,6 +67,9 @@ def gen_value(rng, t):
     if k == "scalar":
         return scalar_value(rng, t["name"])
     if k == "string":
+        if rng.random() < 0.08:     # a capacity instead of text: reads back as the empty string
+            cap = rng.choice([1, 3, 5, 8, 9, 16])
+            return {"s": [], "size": cap + 8, "cap": cap}
         s = rng.choice(STRINGS).encode("utf8")
         return {"s": list(s), "size": slot(len(s) + 9)}
     if k == "struct":
@@ -135,7 +138,7 @@ def val_term(t, v):
 def strip_sizes(v):
     """values as read back by accessors carry no string sizes"""
     if isinstance(v, dict):
-        if "s" in v: return {"s": v["s"]}
+        if "s" in v and "shape" not in v: return {"s": v["s"]}
         return {kk: strip_sizes(x) for kk, x in v.items()}
     if isinstance(v, list):
         return [strip_sizes(x) for x in v]
